@@ -41,9 +41,13 @@ fn generate(rng: &mut Rng) -> C16Sc {
     let nh = rng.range(1, nhmax);
     let mut clients = vec![];
     let mut kinds = vec![];
+    // hostile clients may come from one or two addresses only, so that the limiter refuses some of them
+    // (a refused client that keeps its socket open is one more way of misbehaving)
+    let shared_ip = limiter.is_some() && rng.chance(1, 2);
     for i in 0..nh {
-        let peer: SocketAddr = format!("10.66.{}.{}:{}", i / 200, 1 + i % 200, 21_000 + i).parse().unwrap();
-        let src: SocketAddr = format!("198.18.{}.{}:{}", i / 200, 1 + i % 200, 31_000 + i).parse().unwrap();
+        let (a, b) = if shared_ip { (0, 1 + i % 2) } else { (i / 200, 1 + i % 200) };
+        let peer: SocketAddr = format!("10.66.{a}.{b}:{}", 21_000 + i).parse().unwrap();
+        let src: SocketAddr = format!("198.18.{a}.{b}:{}", 31_000 + i).parse().unwrap();
         let intent = *rng.pick(&[1, 2, 2, 3]);
         let mut spec = ClientSpec::base(rng, intent);
         with_header(rng, &mut spec, proxy, &src);
@@ -260,6 +264,10 @@ impl Check for C16 {
             *rep.faults.entry(format!("hostile_{k}")).or_insert(0) += 1;
         }
         rep.trace_hash = h.0;
+        let refused = out.clients[..n - 1].iter().filter(|c| c.accepted_ns.is_some() && c.rx_total == 0 && c.closed_ns.is_some()).count() as u64;
+        if refused > 0 && sc.net.cfg.limiter.is_some() {
+            *rep.probes.entry("hostile_connection_closed_unserved".into()).or_insert(0) += refused;
+        }
         let vdone = solo.clients[0].view.eof_ns.unwrap_or(u64::MAX);
         rep.nontrivial = sc.net.clients[..n - 1].iter().any(|c| c.connect_at_ns <= vdone);
         check(sc, &out, &solo, &mut rep);
